@@ -70,6 +70,7 @@ func (f *FS) Open(name string) (fs.File, error) {
 	}
 	nth := f.OpenCount[name]
 	readErrAt, eof, once, wrap, temp := -1, false, false, false, false
+	zeroAt := -1
 	for _, ft := range f.Faults {
 		if ft.File != name || (ft.Nth != 0 && ft.Nth != nth) {
 			continue
@@ -107,6 +108,8 @@ func (f *FS) Open(name string) (fs.File, error) {
 			readErrAt, once, wrap, temp = ft.At, ft.Once, ft.Wrap, ft.Temp
 		case "eofat":
 			readErrAt, eof = ft.At, true
+		case "zeroread":
+			zeroAt = ft.At
 		}
 	}
 	data, ok := f.Files[name]
@@ -119,7 +122,7 @@ func (f *FS) Open(name string) (fs.File, error) {
 	if f.Nest > f.MaxNest {
 		f.MaxNest = f.Nest
 	}
-	return &file{fs: f, name: name, data: data, errAt: readErrAt, eofOnly: eof, once: once, wrap: wrap, temp: temp}, nil
+	return &file{fs: f, name: name, data: data, errAt: readErrAt, eofOnly: eof, once: once, wrap: wrap, temp: temp, zeroAt: zeroAt}, nil
 }
 
 type file struct {
@@ -135,6 +138,7 @@ type file struct {
 	once    bool // the read error is transient: returned once, then the file carries on
 	wrap    bool // the read error wraps io.EOF
 	temp    bool // the read error is a timeout that says it is temporary
+	zeroAt  int  // >= 0: the first Read issued at or beyond this offset returns 0, nil
 }
 
 func (x *file) Stat() (fs.FileInfo, error) { return info{x.name, int64(len(x.data)), x.dir}, nil }
@@ -151,6 +155,11 @@ func (x *file) Read(p []byte) (int, error) {
 		return 0, &fs.PathError{Op: "read", Path: x.name, Err: ErrIsDir}
 	}
 	if len(p) == 0 {
+		return 0, nil
+	}
+	if x.zeroAt >= 0 && x.off >= x.zeroAt {
+		x.zeroAt = -1
+		f.Fired["zero_read"]++
 		return 0, nil
 	}
 	lim := len(x.data)
@@ -222,7 +231,11 @@ type Reader struct{ f *file }
 
 func (f *FS) Reader(name string, data []byte) *Reader {
 	errAt, eof, once, wrap, temp := -1, false, false, false, false
+	zeroAt := -1
 	for _, ft := range f.Faults {
+		if ft.File == name && ft.Kind == "zeroread" {
+			zeroAt = ft.At
+		}
 		if ft.File == name && ft.Kind == "readerr" {
 			errAt, once, wrap, temp = ft.At, ft.Once, ft.Wrap, ft.Temp
 		}
@@ -230,7 +243,7 @@ func (f *FS) Reader(name string, data []byte) *Reader {
 			errAt, eof = ft.At, true
 		}
 	}
-	return &Reader{&file{fs: f, name: name, data: data, errAt: errAt, eofOnly: eof, once: once, wrap: wrap, temp: temp}}
+	return &Reader{&file{fs: f, name: name, data: data, errAt: errAt, eofOnly: eof, once: once, wrap: wrap, temp: temp, zeroAt: zeroAt}}
 }
 
 func (r *Reader) Read(p []byte) (int, error) { return r.f.Read(p) }
@@ -244,9 +257,14 @@ type ByteReader struct{ *Reader }
 
 func (r ByteReader) ReadByte() (byte, error) {
 	var b [1]byte
-	n, err := r.f.Read(b[:])
-	if n == 1 {
-		return b[0], nil
+	for {
+		n, err := r.f.Read(b[:])
+		if n == 1 {
+			return b[0], nil
+		}
+		if err != nil {
+			return 0, err
+		}
+		// a Read that returned nothing and no error: ask again
 	}
-	return 0, err
 }
